@@ -21,6 +21,15 @@ VERIF = vx.VERIF
 SPEC = json.load(open(os.path.join(VERIF, "specs", "properties.json")))
 
 
+SAFETY_MSGS = ("precondition not satisfied", "possible arithmetic underflow/overflow", "possible division by zero",
+               "decreases not satisfied", "could not prove termination", "unreachable", "index out of bounds",
+               "may fail to meet its declared type invariant", "possible bit shift")
+
+
+def is_safety(msg):
+    return any(k in msg for k in SAFETY_MSGS)
+
+
 def load_known():
     findings = []
     p = os.path.join(VERIF, "known_findings.txt")
@@ -95,6 +104,11 @@ def run_property(pid, tier="quick", seed=0):
             full = f"{o['unit']}::{fn}"
             vx_obligations.append(full)
             fails = [f for f in r["failures"] if f["fn"] == full and (not f["tags"] or pid in f["tags"])]
+            if o.get("kinds") == "safety":
+                # totality properties (C15/C16): only panics / overflow / non-termination count, not functional clauses
+                fails = [f for f in fails if is_safety(f["msg"])]
+            elif o.get("kinds") == "functional":
+                fails = [f for f in fails if not is_safety(f["msg"])]
             # a failure inside this fn attributed by tag to *other* properties only is not ours
             info = r["per_fn"].get(full)
             if fails:
